@@ -10,13 +10,14 @@ import numpy as np
 from harness.framework import cZ, cZlist, clist, pmap
 
 LEVEL = "proof"
+TRANSLATED_KERNELS = True   # harness/translate.py: kernels re-translated from /repo on every run and proved equal to the model
 RULE = ("geometries (shape 1-3 dims, source chunks, target chunks, itemsize, min_mem, max_mem, allow_irregular) drawn from "
         "ranges that force 1..5 stages; the real planner functions are run with recording wrappers around the float-based "
         "stage-value functions (np.geomspace+floor / _multspace) and Model.Rechunk is evaluated with those recorded values; "
         "non-trivial = accepted plan with >=2 copy stages or a consolidation that changed the chunks or a rejection; distinct = distinct geometry")
 ASSUMPTIONS = ["float division max_mem / chunk_mem followed by int() or '> 1' equals integer division/comparison (byte counts < 2^52)",
                "np.geomspace/floor stage values are taken from the implementation (oracle), their contracts checked per case"]
-TRUSTED = []
+TRUSTED = ["harness/translate.py (fail-closed Python-ast -> Gallina translator for _fix_copy_chunks, _calculate_shared_chunks, _count_intermediate_chunks; Python int = Z, // and % = Z.div / Z.modulo, ceil(a / b) = cdiv on positive ints)", ]
 
 
 def gen_transpose_like(rng):
